@@ -10,8 +10,12 @@
 //   CONS   Pool.AddEvidenceFromConsensus
 //   GEN    a real ConsensusState built on the node's state and seen commit; two conflicting votes go
 //          through cs.tryAddVote, the evidence consensus hands to the pool is recorded
-//   BLOCK  validateBlock's evidence part (ValidateBasic each, count limit, Pool.CheckEvidence)
-//   APPLY  BLOCK then Pool.Update (ApplyBlock) ; UPD  Pool.Update alone (validation cache hit)
+//   BLOCK  the node's real cstate.BlockExecutor.ValidateBlock on a real block of height state+1 carrying the
+//          evidence (Block.ValidateBasic, header / commit / time checks, count limit, Pool.CheckEvidence)
+//   APPLY  the real BlockExecutor.ApplyBlock on the chain's block (ValidateBlock, application stub answering
+//          with the planned validator set, store.Save, Pool.Update) ; UPD  the same when the node validated
+//          that block as a proposal before (validation cache hit: Update only), or Pool.Update alone
+//          (also with a state that is not newer than the pool's: panic)
 //   PEND   Pool.PendingEvidence ; RESTART  evidence.NewPool over the same database
 //   META / VALS  the block store / state store receive block h / state h
 // After every op the result class and the projection of the pool (pending and committed key
@@ -267,6 +271,9 @@ type c19Node struct {
 	fromCons  map[string]bool   // keys that entered this pool through AddEvidenceFromConsensus (tryAddVote)
 	tainted   map[string]bool   // keys the harness itself pushed through AddEvidenceFromConsensus without their being consensus-built
 	dead      bool
+	exec      *cstate.BlockExecutor // the node's real block executor (ValidateBlock / ApplyBlock, with its validation cache)
+	eb        *types.EventBus
+	validated map[common.Hash]bool // blocks this executor validated since its last ApplyBlock (its validation cache)
 }
 
 type c19Case struct {
@@ -285,6 +292,7 @@ type c19Case struct {
 	step    int
 	gens    []*c19Ev
 	genRej  int
+	aligned bool // block and vote times on whole seconds, age limits on whole seconds: exact expiry boundaries are hit
 }
 
 func c19Nanos(t time.Time) *big.Int {
@@ -539,9 +547,9 @@ func (c *c19Case) stateAt(h uint64) cstate.LatestBlockState {
 
 func (c *c19Case) tip() uint64 { return uint64(len(c.blocks) - 1) }
 
-// newBlock creates block tip+1 carrying evs
-func (c *c19Case) newBlock(evs []*c19Ev) *c19Block {
-	h := c.tip() + 1
+// mkBlock builds a block of height h (1 <= h <= tip+1) on top of chain block h-1 carrying evs: real header
+// (median time of a real commit of block h-1, validator hashes of the plan), real commit, real evidence list.
+func (c *c19Case) mkBlock(h uint64, evs []*c19Ev) (*types.Block, time.Time) {
 	c.planSet(h + 2)
 	var commit *types.Commit
 	var ts time.Time
@@ -556,9 +564,24 @@ func (c *c19Case) newBlock(evs []*c19Ev) *c19Block {
 	for _, e := range evs {
 		list = append(list, e.ev)
 	}
-	hd := &types.Header{Height: h, Time: ts, LastBlockID: c.blocks[h-1].bid, ProposerAddress: c.sets[h].Validators[0].Address,
+	last := c.blocks[h-1].bid
+	if h == 1 {
+		last = types.NewZeroBlockID()
+	}
+	hd := &types.Header{Height: h, Time: ts, LastBlockID: last, ProposerAddress: c.sets[h].Validators[0].Address,
 		ValidatorsHash: c.sets[h].Hash(), NextValidatorsHash: c.sets[h+1].Hash(), GasLimit: configs.BlockGasLimit}
-	blk := types.NewBlock(hd, nil, commit, list, trie.NewStackTrie(nil))
+	return types.NewBlock(hd, nil, commit, list, trie.NewStackTrie(nil)), ts
+}
+
+// newBlock creates block tip+1 carrying evs
+func (c *c19Case) newBlock(evs []*c19Ev) *c19Block {
+	blk, ts := c.mkBlock(c.tip()+1, evs)
+	return c.adopt(blk, ts, evs)
+}
+
+// adopt makes blk (built by mkBlock for height tip+1) the next block of the chain
+func (c *c19Case) adopt(blk *types.Block, ts time.Time, evs []*c19Ev) *c19Block {
+	h := c.tip() + 1
 	parts := blk.MakePartSet(types.BlockPartSizeBytes)
 	b := &c19Block{height: h, block: blk, parts: parts, bid: types.BlockID{Hash: blk.Hash(), PartsHeader: parts.Header()}, time: ts, evs: evs}
 	c.blocks = append(c.blocks, b)
@@ -568,11 +591,17 @@ func (c *c19Case) newBlock(evs []*c19Ev) *c19Block {
 	if c.r.Chance(1, 6) {
 		gap = time.Duration(20+c.r.Intn(100)) * time.Second
 	}
+	if c.aligned {
+		gap = time.Duration(1+c.r.Intn(3)) * time.Second
+	}
 	total := c.totalOf(h)
 	var forBlock int64
 	for i, val := range c.sets[h].Validators {
 		k := c.keyOf(val.Address)
 		vts := ts.Add(gap).Add(time.Duration(c.r.Intn(3000)) * time.Millisecond)
+		if c.aligned {
+			vts = ts.Add(gap)
+		}
 		bid := b.bid
 		b.precoms = append(b.precoms, c.signVote(k, c19ChainID, kproto.PrecommitType, h, 1, bid, vts, uint32(i)))
 		forBlock += val.VotingPower
@@ -624,9 +653,28 @@ func (c *c19Case) newNode(k int) *c19Node {
 	}
 	pool.SetLogger(log.New())
 	nd.pool = pool
+	nd.eb = types.NewEventBus()
+	nd.eb.SetLogger(log.New())
+	if err := nd.eb.Start(); err != nil {
+		panic(err)
+	}
+	c.newExec(nd)
 	c.o.Op(fmt.Sprintf("%d INIT %s", k, c.stTok(0)), "ok "+c.proj(nd))
 	c.o.Op(fmt.Sprintf("%d META 0 %s", k, c19Nanos(c19Genesis)), "ok "+c.proj(nd))
 	return nd
+}
+
+// c19NodePool is the evidence pool the node's block executor talks to: the node's current real pool
+type c19NodePool struct{ nd *c19Node }
+
+func (p c19NodePool) Update(s cstate.LatestBlockState, ev types.EvidenceList) { p.nd.pool.Update(s, ev) }
+func (p c19NodePool) CheckEvidence(l types.EvidenceList) error                 { return p.nd.pool.CheckEvidence(l) }
+
+// newExec gives the node a fresh real BlockExecutor (node start / restart: empty validation cache)
+func (c *c19Case) newExec(nd *c19Node) {
+	nd.exec = cstate.NewBlockExecutor(nd.store, log.New(), c19NodePool{nd}, &c19BlockOps{nd: nd, c: c})
+	nd.exec.SetEventBus(nd.eb)
+	nd.validated = map[common.Hash]bool{}
 }
 
 func c19ParseKey(key []byte, prefix string) (uint64, uint64) {
@@ -741,6 +789,22 @@ func (c *c19Case) truth(ev *types.DuplicateVoteEvidence) string {
 	if a.BlockID.Hash == b.BlockID.Hash && a.BlockID.PartsHeader.Hash == b.BlockID.PartsHeader.Hash && a.BlockID.PartsHeader.Total == b.BlockID.PartsHeader.Total {
 		return "sameid"
 	}
+	// votes exist only as prevotes and precommits, for nil or for a complete block id; the pair is listed once, in
+	// the order of the ids (the other order is the same double-signing under another hash)
+	if a.Type != kproto.PrevoteType && a.Type != kproto.PrecommitType {
+		return "badtype"
+	}
+	for _, v := range []*types.Vote{a, b} {
+		id := v.BlockID
+		zero := id.Hash == (common.Hash{}) && id.PartsHeader.Hash == (common.Hash{}) && id.PartsHeader.Total == 0
+		complete := id.Hash != (common.Hash{}) && !(id.PartsHeader.Hash == (common.Hash{}) && id.PartsHeader.Total == 0)
+		if !zero && !complete {
+			return "badblockid"
+		}
+	}
+	if c19IDKey(a.BlockID) >= c19IDKey(b.BlockID) {
+		return "unordered"
+	}
 	h := a.Height
 	if h == 0 || h > c.tip() {
 		return "noblock"
@@ -775,6 +839,11 @@ func (c *c19Case) truth(ev *types.DuplicateVoteEvidence) string {
 		return "index"
 	}
 	return ""
+}
+
+// c19IDKey orders block ids as BlockID.Key() does (two fixed-width hex strings, then the decimal total)
+func c19IDKey(id types.BlockID) string {
+	return fmt.Sprintf("%x%x:%d", id.Hash[:], id.PartsHeader.Hash[:], id.PartsHeader.Total)
 }
 
 // expired by the rule of the property: older than MaxAgeNumBlocks blocks AND older than MaxAgeDuration
@@ -962,7 +1031,32 @@ func (c *c19Case) opPeer(nd *c19Node, e *c19Ev) string {
 		nd.accepted[c19Key2(e)] = true
 		c.acceptedNow(nd, e, "peer", false)
 	}
+	if res != "ok" && c.mustAccept(nd, e) {
+		c.o.Fail(c.step, "sound-rejected:"+strings.TrimPrefix(res, "inv:"), fmt.Sprintf("node=%d via=peer ev=%d h=%d state=%d", nd.k, e.id, e.ev.Height(), nd.height))
+	}
+	c.countBoundary(nd, e)
 	return res
+}
+
+// countBoundary: how often the exact expiry boundaries are exercised (distribution only)
+func (c *c19Case) countBoundary(nd *c19Node, e *c19Ev) {
+	h := e.ev.Height()
+	if c.truth(e.ev) != "" || h > nd.height || nd.height == 0 {
+		return
+	}
+	ageB := int64(nd.height) - int64(h)
+	ageD := c.blocks[nd.height].time.Sub(c.blocks[h].time)
+	mb, md := c.params.Evidence.MaxAgeNumBlocks, c.params.Evidence.MaxAgeDuration
+	switch {
+	case ageD == md && ageB > mb:
+		c.o.Count("boundary:age-duration=max,blocks>max")
+	case ageB == mb && ageD > md:
+		c.o.Count("boundary:age-blocks=max,duration>max")
+	case ageB == mb+1 && ageD > md:
+		c.o.Count("boundary:age-blocks=max+1,duration>max")
+	case ageB > mb && ageD > md && ageD <= md+time.Second:
+		c.o.Count("boundary:age-duration<=max+1s,blocks>max")
+	}
 }
 
 func (c *c19Case) opCons(nd *c19Node, e *c19Ev) {
@@ -989,22 +1083,32 @@ func (c *c19Case) idList(evs []*c19Ev) string {
 	return s
 }
 
-// validateBlock's evidence part (cstate/validation.go) with Block.ValidateBasic's evidence loop
-func (c *c19Case) checkList(nd *c19Node, evs []*c19Ev) string {
-	for _, e := range evs {
-		if err := e.ev.ValidateBasic(); err != nil {
-			return "basic"
-		}
+// blockClass maps the error of the real BlockExecutor.ValidateBlock / ApplyBlock to a result class; any
+// error that is not about the block's evidence is a fault of the harness's chain plan and is reported.
+func (c *c19Case) blockClass(err error) string {
+	if err == nil {
+		return "ok"
 	}
-	maxNum, _ := types.MaxEvidencePerBlock(int64(c.params.Block.MaxBytes))
-	if int64(len(evs)) > maxNum {
+	if _, ok := err.(*types.ErrEvidenceOverflow); ok {
 		return "overflow"
 	}
-	var l types.EvidenceList
-	for _, e := range evs {
-		l = append(l, e.ev)
+	if _, ok := err.(*types.ErrEvidenceInvalid); ok {
+		return c19Class(err)
 	}
-	return c19Class(nd.pool.CheckEvidence(l))
+	if strings.HasPrefix(err.Error(), "invalid evidence (#") {
+		return "basic"
+	}
+	c.o.Fail(c.step, "harness-block-invalid", strings.ReplaceAll(err.Error(), "\n", " "))
+	return "err"
+}
+
+// validateReal: the node's real BlockExecutor.ValidateBlock (cstate/execution.go, validation.go) on a real block
+func (c *c19Case) validateReal(nd *c19Node, blk *types.Block) string {
+	res := c.blockClass(nd.exec.ValidateBlock(c.stateAt(nd.height), blk))
+	if res == "ok" {
+		nd.validated[blk.Hash()] = true
+	}
+	return res
 }
 
 func (c *c19Case) maxNum() int64 {
@@ -1025,10 +1129,41 @@ func (c *c19Case) blockAccepted(nd *c19Node, evs []*c19Ev, was map[string]bool, 
 	}
 }
 
+// mustAccept: from the harness's own tables, e is a real double-signing of height <= the node's state height
+// with its block's time, not expired at the node and not committed there: a correct node has to accept it
+func (c *c19Case) mustAccept(nd *c19Node, e *c19Ev) bool {
+	h := e.ev.Height()
+	return c.truth(e.ev) == "" && h >= 1 && h <= nd.height && nd.metaH >= h && !c.expiredAt(nd.height, h) && nd.commitLog[c19Key2(e)] == 0
+}
+
+// rejectedList: a list of distinct evidence, within the count limit, each of which has to be accepted, was refused
+func (c *c19Case) rejectedList(nd *c19Node, evs []*c19Ev, was map[string]bool, res, via string) {
+	if int64(len(evs)) > c.maxNum() {
+		return
+	}
+	seen := map[string]bool{}
+	for _, e := range evs {
+		if !c.mustAccept(nd, e) || seen[c19Key2(e)] {
+			return
+		}
+		seen[c19Key2(e)] = true
+	}
+	c.o.Fail(c.step, "sound-rejected:"+strings.TrimPrefix(res, "inv:"), fmt.Sprintf("node=%d via=%s evs=%s state=%d", nd.k, via, c.idList(evs), nd.height))
+}
+
 func (c *c19Case) opBlock(nd *c19Node, evs []*c19Ev, why string) string {
+	return c.opBlockOf(nd, evs, why, nil)
+}
+
+// opBlockOf: node nd validates block blk (height nd.height+1, carrying evs) as a proposal; blk == nil: a block
+// is built for the occasion
+func (c *c19Case) opBlockOf(nd *c19Node, evs []*c19Ev, why string, blk *types.Block) string {
 	ids := c.idList(evs)
 	was := c.pendingSet(nd)
-	res := c.run(nd, fmt.Sprintf("%d BLOCK %d %s", nd.k, c.maxNum(), ids), func() string { return c.checkList(nd, evs) }, nil)
+	if blk == nil {
+		blk, _ = c.mkBlock(nd.height+1, evs)
+	}
+	res := c.run(nd, fmt.Sprintf("%d BLOCK %d %s", nd.k, c.maxNum(), ids), func() string { return c.validateReal(nd, blk) }, nil)
 	c.o.Count("block:" + res)
 	kinds := ""
 	for _, e := range evs {
@@ -1037,6 +1172,11 @@ func (c *c19Case) opBlock(nd *c19Node, evs []*c19Ev, why string) string {
 	c.o.Mark("block/" + why + "/" + kinds + "/" + res)
 	if res == "ok" {
 		c.blockAccepted(nd, evs, was, "block")
+	} else {
+		c.rejectedList(nd, evs, was, res, "block")
+	}
+	if len(evs) == int(c.maxNum()) || len(evs) == int(c.maxNum())+1 {
+		c.o.Count(fmt.Sprintf("boundary:block-count=max%+d", len(evs)-int(c.maxNum())))
 	}
 	return res
 }
@@ -1075,8 +1215,32 @@ func (c *c19Case) advance(nd *c19Node) {
 	for _, e := range blk.evs {
 		l = append(l, e.ev)
 	}
-	if c.r.Chance(1, 8) {
-		// validation cache hit in ApplyBlock: Update only
+	// the real BlockExecutor.ApplyBlock: ValidateBlock (or its cache), the application (planned validators),
+	// store.Save, Pool.Update
+	applyReal := func() string {
+		st, _, err := nd.exec.ApplyBlock(c.stateAt(h-1), blk.bid, blk.block)
+		res := c.blockClass(err)
+		if res == "ok" {
+			nd.validated = map[common.Hash]bool{}
+			if st.LastBlockHeight != h || !st.LastBlockTime.Equal(blk.time) || st.Validators.Hash() != c.sets[h+1].Hash() ||
+				st.NextValidators.Hash() != c.sets[h+2].Hash() || st.LastValidators.Hash() != c.sets[h].Hash() {
+				c.o.Fail(c.step, "harness-apply-state", fmt.Sprintf("node=%d height=%d got=%d", nd.k, h, st.LastBlockHeight))
+			}
+		}
+		return res
+	}
+	if nd.validated[blk.block.Hash()] {
+		// the node validated this very block as a proposal: ApplyBlock hits the validation cache, Update only
+		res := c.run(nd, fmt.Sprintf("%d UPD %s %s", nd.k, c.stTok(h), ids), applyReal,
+			func() map[string]bool { nd.height = h; return c.recordCommit(nd, blk.evs) })
+		c.o.Count("upd-cache-hit:" + res)
+		if res != "ok" {
+			c.o.Fail(c.step, "validated-block-not-applied:"+res, fmt.Sprintf("node=%d height=%d evs=%s", nd.k, h, ids))
+		}
+		return
+	}
+	if c.r.Chance(1, 10) {
+		// the pool is updated without this node having validated the block
 		res := c.run(nd, fmt.Sprintf("%d UPD %s %s", nd.k, c.stTok(h), ids), func() string {
 			nd.pool.Update(blk.state, l)
 			return "ok"
@@ -1086,12 +1250,8 @@ func (c *c19Case) advance(nd *c19Node) {
 	}
 	validated := ""
 	res := c.run(nd, fmt.Sprintf("%d APPLY %d %s %s", nd.k, c.maxNum(), c.stTok(h), ids), func() string {
-		validated = c.checkList(nd, blk.evs)
-		if validated != "ok" {
-			return validated
-		}
-		nd.pool.Update(blk.state, l)
-		return "ok"
+		validated = applyReal()
+		return validated
 	}, func() map[string]bool {
 		if validated != "ok" {
 			return nil
@@ -1128,6 +1288,94 @@ func (c *c19Case) opPending(nd *c19Node, maxBytes int64) []*c19Ev {
 	return out
 }
 
+// capOf: the protobuf size of an EvidenceData holding the first k pending entries (what listEvidence measures)
+func (c *c19Case) capOf(nd *c19Node, k int) (int64, bool) {
+	fam := c.family(nd, "evidence-pending")
+	var data kproto.EvidenceData
+	for _, key := range fam[:k] {
+		var found *c19Ev
+		for _, e := range c.evs {
+			if c19Key2(e) == key {
+				found = e
+			}
+		}
+		if found == nil || found.ev.ValidateBasic() != nil {
+			return 0, false
+		}
+		pb, err := types.EvidenceToProto(found.ev)
+		if err != nil {
+			return 0, false
+		}
+		data.Evidence = append(data.Evidence, *pb)
+	}
+	return int64(data.Size()), true
+}
+
+func (c *c19Case) opPendingBoundary(nd *c19Node) {
+	fam := c.family(nd, "evidence-pending")
+	if len(fam) == 0 || nd.pool.Size() == 0 {
+		c.opPending(nd, int64(c.r.Intn(3))-1)
+		return
+	}
+	k := 1 + c.r.Intn(len(fam))
+	sz, ok := c.capOf(nd, k)
+	if !ok {
+		return
+	}
+	d := int64(c.r.Intn(3)) - 1
+	got := c.opPending(nd, sz+d)
+	c.o.Count(fmt.Sprintf("boundary:pending-cap=size(first-k)%+d", d))
+	// direct oracle: exactly the first k entries fit at cap sz, k-1 at sz-1
+	want := k
+	if d < 0 {
+		want = k - 1
+	}
+	if d > 0 && k < len(fam) {
+		if sz2, ok2 := c.capOf(nd, k+1); ok2 && sz2 <= sz+d {
+			want = k + 1
+		}
+	}
+	all := true
+	for i := 0; i < len(fam); i++ {
+		if _, ok := c.capOf(nd, i+1); !ok {
+			all = false
+		}
+	}
+	if all && len(got) != want {
+		c.o.Fail(c.step, "pending-cap", fmt.Sprintf("node=%d cap=%d size-of-first-%d=%d listed=%d want=%d", nd.k, sz+d, k, sz, len(got), want))
+	}
+}
+
+func (c *c19Case) opStaleUpdate(nd *c19Node) {
+	if nd.height == 0 || nd.metaH != nd.height {
+		return
+	}
+	h := nd.height
+	if c.r.Chance(1, 2) {
+		h = 1 + uint64(c.r.Intn(int(nd.height)))
+	}
+	var evs []*c19Ev
+	if l, _ := nd.pool.PendingEvidence(-1); len(l) > 0 && c.r.Chance(2, 3) {
+		if e, ok := c.byHash[l[c.r.Intn(len(l))].Hash()]; ok {
+			evs = append(evs, e)
+		}
+	}
+	ids := c.idList(evs)
+	var l types.EvidenceList
+	for _, e := range evs {
+		l = append(l, e.ev)
+	}
+	before := c.proj(nd)
+	res := c.run(nd, fmt.Sprintf("%d UPD %s %s", nd.k, c.stTok(h), ids), func() string {
+		nd.pool.Update(c.blocks[h].state, l)
+		return "ok"
+	}, nil)
+	c.o.Count(fmt.Sprintf("upd-stale:same-height=%v:%s", h == nd.height, res))
+	if res != "panic" || c.proj(nd) != before || nd.pool.State().LastBlockHeight != nd.height {
+		c.o.Fail(c.step, "stale-update-applied", fmt.Sprintf("node=%d pool-height=%d update-height=%d res=%s", nd.k, nd.height, h, res))
+	}
+}
+
 func (c *c19Case) opRestart(nd *c19Node) {
 	if nd.metaH != nd.height {
 		return
@@ -1143,6 +1391,7 @@ func (c *c19Case) opRestart(nd *c19Node) {
 			c.o.Fail(c.step, "restart-state", fmt.Sprintf("node=%d loaded=%d want=%d", nd.k, st.LastBlockHeight, nd.height))
 		}
 		nd.pool = pool
+		c.newExec(nd)
 		return "ok"
 	}, nil)
 	c.o.Count("restart:" + res)
@@ -1172,6 +1421,9 @@ func c19CopyVote(v *types.Vote) *types.Vote {
 // mkEvidence builds evidence about height h; kind "valid" is a real double-signing, every other
 // kind is one mutation away from it.
 func (c *c19Case) mkEvidence(h uint64, kind string) *c19Ev {
+	if kind == "height-zero" || kind == "height-huge" {
+		return c.mkOutOfRange(kind)
+	}
 	c.planSet(h)
 	ms := c.members[h]
 	m := ms[c.r.Intn(len(ms))]
@@ -1310,7 +1562,29 @@ func (c *c19Case) mkEvidence(h uint64, kind string) *c19Ev {
 	return c.register(ev, kind)
 }
 
-var c19Kinds = []string{"swapped", "sameid", "sameid-samevote", "height", "height-a", "round", "type", "badtype", "index-a", "index-b", "index-both",
+// mkOutOfRange: a well-formed double-signing by a member of the first validator set about a height the chain
+// will never have: 0 (the genesis block has a header but no validator set) or a height at / beyond the
+// int64 boundary (verify subtracts in int64, isExpired and the pruning height in uint64)
+func (c *c19Case) mkOutOfRange(kind string) *c19Ev {
+	c.planSet(1)
+	m := c.members[1][c.r.Intn(len(c.members[1]))]
+	idx, _ := c.sets[1].GetByAddress(c19Keys[m.key].addr)
+	var h uint64
+	bt := c19Genesis
+	if kind == "height-huge" {
+		h = []uint64{1 << 63, 1<<63 - 1, 1<<63 + 1 + uint64(c.r.Intn(5)), ^uint64(0), ^uint64(0) - uint64(c.r.Intn(200000))}[c.r.Intn(5)]
+		if c.tip() >= 1 && c.r.Chance(1, 2) {
+			bt = c.blocks[1+uint64(c.r.Intn(int(c.tip())))].time
+		}
+	}
+	b1, b2 := c.twoBids()
+	v1 := c.signVote(m.key, c19ChainID, kproto.PrecommitType, h, 1, b1, bt, uint32(idx))
+	v2 := c.signVote(m.key, c19ChainID, kproto.PrecommitType, h, 1, b2, bt, uint32(idx))
+	ev := types.NewDuplicateVoteEvidence(v1, v2, bt, c.sets[1])
+	return c.register(ev, kind)
+}
+
+var c19Kinds = []string{"height-zero", "height-huge", "swapped", "sameid", "sameid-samevote", "height", "height-a", "round", "type", "badtype", "index-a", "index-b", "index-both",
 	"addr-b", "addr-both", "sig-b-otherkey", "sig-a-otherkey", "sig-b-otherchain", "sig-a-otherchain", "sig-a-otherblock", "sig-b-othertime",
 	"sig-garbage", "sig-short", "sig-empty", "power", "power-less", "total", "total-less", "time-plus", "time-minus", "time-otherblock", "time-zero",
 	"nonmember", "incomplete-bid"}
@@ -1396,7 +1670,10 @@ func (p *c19RecPool) AddEvidenceFromConsensus(ev types.Evidence) error {
 func (p *c19RecPool) Update(s cstate.LatestBlockState, ev types.EvidenceList) { p.pool.Update(s, ev) }
 func (p *c19RecPool) CheckEvidence(l types.EvidenceList) error                 { return p.pool.CheckEvidence(l) }
 
-type c19BlockOps struct{ nd *c19Node }
+type c19BlockOps struct {
+	nd *c19Node
+	c  *c19Case // set for the node's block executor: the application answers with the planned validator set
+}
 
 func (b *c19BlockOps) Base() uint64                                { return 0 }
 func (b *c19BlockOps) Height() uint64                              { return b.nd.height }
@@ -1407,7 +1684,17 @@ func (b *c19BlockOps) CreateProposalBlock(height uint64, state cstate.LatestBloc
 	return nil, nil
 }
 func (b *c19BlockOps) CommitAndValidateBlockTxs(block *types.Block, lastCommit stypes.LastCommitInfo, byzVals []stypes.Evidence) ([]*types.Validator, common.Hash, error) {
-	return nil, common.Hash{}, nil
+	if b.c == nil {
+		return nil, common.Hash{}, nil
+	}
+	// the staking contract's answer: the validators of height+2 as planned
+	h := block.Height() + 2
+	b.c.planSet(h)
+	var vals []*types.Validator
+	for _, m := range b.c.members[h] {
+		vals = append(vals, types.NewValidator(c19Keys[m.key].addr, m.power))
+	}
+	return vals, common.Hash{}, nil
 }
 func (b *c19BlockOps) SaveBlock(block *types.Block, partSet *types.PartSet, seenCommit *types.Commit) {}
 func (b *c19BlockOps) LoadBlockPart(height uint64, index int) *types.Part                          { return nil }
@@ -1754,11 +2041,12 @@ func (c *c19Case) extend() {
 		}
 		evs = clean
 	}
+	cand, candT := c.mkBlock(c.tip()+1, evs)
 	if len(evs) > 0 {
 		verdict := map[string]bool{}
 		all := true
 		for _, nd := range tips {
-			res := c.opBlock(nd, evs, why)
+			res := c.opBlockOf(nd, evs, why, cand)
 			verdict[res] = true
 			if res != "ok" {
 				all = false
@@ -1794,12 +2082,19 @@ func (c *c19Case) extend() {
 		}
 		if !all {
 			c.o.Count("proposal-rejected:" + why)
-			evs = nil
-		} else {
-			c.o.Count("proposal-accepted:" + why)
+			c.newBlock(nil)
+			return
+		}
+		c.o.Count("proposal-accepted:" + why)
+	} else if c.r.Chance(1, 2) {
+		// an empty proposal validated by the nodes at the tip (their ApplyBlock then hits the validation cache)
+		for _, nd := range tips {
+			if c.r.Chance(2, 3) {
+				c.opBlockOf(nd, nil, why, cand)
+			}
 		}
 	}
-	c.newBlock(evs)
+	c.adopt(cand, candT, evs)
 }
 
 // ---------------------------------------------------------------------------------------------
@@ -1816,7 +2111,7 @@ func (c *c19Case) script(maxOps int) {
 			return
 		}
 		nd := live[c.r.Intn(len(live))]
-		switch c.r.Pick(26, 22, 6, 10, 8, 5, 5, 3) {
+		switch c.r.Pick(26, 22, 6, 10, 8, 5, 5, 3, 3, 2) {
 		case 0: // the chain grows / a node catches up
 			if nd.height == c.tip() {
 				if c.tip() < 14 {
@@ -1845,10 +2140,14 @@ func (c *c19Case) script(maxOps int) {
 			c.opGen(nd)
 		case 4:
 			n := 1 + c.r.Intn(3)
+			if c.r.Chance(1, 6) {
+				n = 4 + c.r.Intn(2)
+			}
 			var evs []*c19Ev
 			for j := 0; j < n; j++ {
 				if len(evs) > 0 && c.r.Chance(1, 4) {
-					evs = append(evs, evs[0])
+					evs = append(evs, evs[c.r.Intn(len(evs))]) // a repetition of any earlier element (first, last, middle)
+					c.o.Count(fmt.Sprintf("block-dup:len=%d", len(evs)))
 				} else {
 					evs = append(evs, c.someEvidence())
 				}
@@ -1865,6 +2164,10 @@ func (c *c19Case) script(maxOps int) {
 			c.opPending(nd, mb)
 		case 6:
 			c.opRestart(nd)
+		case 8: // PendingEvidence with the byte cap at, just below and just above the size of the first k entries
+			c.opPendingBoundary(nd)
+		case 9: // Update with a state that is not newer than the pool's (the sanity check panics, nothing changes)
+			c.opStaleUpdate(nd)
 		case 7: // consensus hands over evidence it built itself (only evidence that is not committed there)
 			e := c.someEvidence()
 			if nd.commitLog[c19Key2(e)] == 0 {
@@ -1922,6 +2225,13 @@ func TestVerifC19(t *testing.T) {
 			c.params.Evidence.MaxAgeNumBlocks = int64(1 + r.Intn(4))
 			c.params.Evidence.MaxAgeDuration = time.Duration(3+r.Intn(40)) * time.Second
 		}
+		if r.Chance(1, 4) {
+			// whole-second block times and limits: ageDuration == MaxAgeDuration and pruningTime == LastBlockTime happen
+			c.aligned = true
+			c.params.Evidence.MaxAgeNumBlocks = int64(1 + r.Intn(3))
+			c.params.Evidence.MaxAgeDuration = time.Duration(2+r.Intn(7)) * time.Second
+			o.Count("mode:aligned-times")
+		}
 		if r.Chance(1, 6) {
 			c.params.Evidence.MaxBytes = 100 * 1048576 // large enough for the proposer's cap to let evidence in
 		}
@@ -1961,6 +2271,9 @@ func TestVerifC19(t *testing.T) {
 			ops *= 2
 		}
 		c.script(ops)
+		for _, nd := range c.nodes {
+			nd.eb.Stop()
+		}
 		o.Count(fmt.Sprintf("final-tip:%d", c.tip()))
 		o.Count(fmt.Sprintf("nodes:%d", nn))
 		committed := 0
